@@ -1,0 +1,6 @@
+//go:build !verif
+// +build !verif
+
+package wasp
+
+func vhook(point string, args ...interface{}) {}
